@@ -8,7 +8,7 @@
    16-bit limit of the wire format, batches any length.  The AEAD of an encrypted
    session is an arbitrary pair seal/open with open n (seal n m) = Some m. *)
 From Coq Require Import List NArith Arith Bool Lia.
-From AHK Require Import Lib.Res Lib.ByteStr Model.Pdu Proofs.PduBle Proofs.PduCoap.
+From AHK Require Import Lib.Res Lib.ByteStr Model.Pdu Proofs.PduBle Proofs.PduCoap Proofs.PduSession.
 Import ListNotations.
 
 (* ------------------------------------------------------------------ BLE requests *)
@@ -132,6 +132,41 @@ Theorem ble_reject_bad_seal : forall (open : N -> bytes -> option bytes) ctr tid
     open ctr f = None -> read_pdu open ctr tid (f :: rest) = Err EncryptionError.
 Proof. exact read_bad_seal. Qed.
 
+(* ------------------------------------------------------------------ BLE sessions (histories) *)
+
+(* REFINEMENT.  Any number of requests on one connection - any fragment sizes >= 8, any bodies -
+   against a spec accessory whose [resp] picks, for the request it reassembled, any conformant
+   answer (status 0..6, any fragmentation into non-empty continuation pieces) - with persistent
+   key counters on both sides, starting in step: the concrete loop (fragment, seal, write, open,
+   reassemble, answer, seal, read loop) returns exactly "resp applied to request i" for every i,
+   in order: each response is attributed to its own request, the accessory saw exactly the
+   requests made, and both ends finish with equal counters (the session never drifts). *)
+Theorem ble_session_attribution : forall sealW sealR openW openR,
+    (forall n m, openW n (sealW n m) = Some m) -> (forall n m, openR n (sealR n m) = Some m) ->
+    forall resp : responder,
+    (forall (op t i : N) (b : bytes), (N.of_nat (length b) < 65536)%N -> ans_ok (resp (op, t, i, b))) ->
+    forall reqs e d, Forall breq_ok reqs ->
+    exists e' d',
+      ble_loop sealW openR sealR openW resp (e, d) (e, d) reqs
+      = Ok (map (fun r => ans_outcome (resp (breq_core r))) reqs, (e', d'), (e', d')).
+Proof. exact ble_session_attribution_l. Qed.
+
+(* a complete, well-formed response that answers ANOTHER transaction (an earlier request's
+   answer, a reused or corrupted tid) is never attributed to the pending request *)
+Theorem ble_stale_response_rejected : forall (sealR : N -> bytes -> bytes) (openR : N -> bytes -> option bytes),
+    (forall n m, openR n (sealR n m) = Some m) ->
+    forall c t' st p0 conts tid d, t' <> tid ->
+    read_pdu openR d tid (seal_seq sealR d (acc_response c t' st p0 conts)) = Err ValueError.
+Proof. exact ble_stale_l. Qed.
+
+(* status bytes outside PDUStatus (0..6): the enum constructor's ValueError - the request fails,
+   nothing is returned as a body *)
+Theorem ble_undefined_status_rejected : forall (sealR : N -> bytes -> bytes) (openR : N -> bytes -> option bytes),
+    (forall n m, openR n (sealR n m) = Some m) ->
+    forall c t st tail rest tid d, (6 < st)%N ->
+    read_pdu openR d tid (sealR d (c :: t :: st :: tail) :: rest) = Err ValueError.
+Proof. exact ble_undefined_status_l. Qed.
+
 (* ------------------------------------------------------------------ CoAP batches *)
 
 (* request: item i travels with tid = i, its own iid and body, in order *)
@@ -166,6 +201,14 @@ Theorem coap_batch_aligned : forall items,
       /\ forall i it, nth_error items i = Some it -> nth_error res i = Some (coap_classify (N.of_nat i) it).
 Proof. exact coap_batch_aligned_nth. Qed.
 
+(* the domain boundary of coap_batch_aligned, as a theorem: an item with an undefined status
+   byte (> 6) after any number of well-formed items makes the WHOLE batch raise ValueError
+   (PDUStatus(status)); no partial result list is returned *)
+Theorem coap_undefined_status_aborts_batch : forall pre c t s b post,
+    forallb coap_item_ok pre = true -> (6 < s)%N ->
+    coap_decode_all 0 (concat (map coap_render (pre ++ (c, t, s, b) :: post))) = Err ValueError.
+Proof. exact coap_bad_status_aborts. Qed.
+
 (* the batch decoder's fuel always suffices: on ANY response bytes the model returns a
    result list, the enum's ValueError or Crash (struct.error) - never OutOfFuel *)
 Theorem coap_decode_total : forall start d, coap_decode_all start d <> OutOfFuel.
@@ -179,6 +222,23 @@ Theorem coap_result_keys : forall (K : Type) (ids : list K) items,
     /\ forall i k it, nth_error ids i = Some k -> nth_error items i = Some it ->
          nth_error (combine ids (classify_from 0 items)) i = Some (k, coap_classify (N.of_nat i) it).
 Proof. exact @coap_result_keys_l. Qed.
+
+(* _read_characteristics_exit in full, with the accessory database (known iids) and the value
+   cache: entry i is built from item i's own outcome under ids[i]; and a cache write (iid, v)
+   happens IF AND ONLY IF some position i asked for that known iid and item i is a non-empty
+   body decoding to v - nothing is invented, shifted or lost in the cached model either *)
+Theorem coap_read_attribution : forall (dec : bytes -> bytes) (known : N -> bool) ids items,
+    items <> [] -> forallb coap_item_ok items = true -> length ids = length items ->
+    exists entries writes,
+      rbind (coap_decode_all 0 (concat (map coap_render items))) (coap_read_exit dec known ids) = Ok (entries, writes)
+      /\ length entries = length items
+      /\ (forall i k it, nth_error ids i = Some k -> nth_error items i = Some it ->
+            nth_error entries i = Some (k, fst (read_entry dec known (snd k) (coap_classify (N.of_nat i) it))))
+      /\ (forall x v, In (x, v) writes <->
+            exists i k it b, nth_error ids i = Some k /\ nth_error items i = Some it
+                             /\ coap_classify (N.of_nat i) it = CBody b
+                             /\ snd k = x /\ known x = true /\ b <> [] /\ dec b = v).
+Proof. exact coap_read_attribution_l. Qed.
 
 (* repeated ids (no NoDup assumption anywhere): read back as the Python dict the exit code
    builds, a key requested at several positions carries the outcome of its LAST position *)
@@ -237,6 +297,17 @@ Example c17_coap_nonvacuous :
      = Ok [CBody [1%N; 1%N; 9%N]; CStatus 6; CStatus 256; CStatus 257].
 Proof. cbv zeta. split; vm_compute; reflexivity. Qed.
 
+(* three requests (bodies 0, 30 and 300 bytes; fragment sizes 20, 81, 9) on one session sealed
+   with the toy AEAD in both directions, answered by the demo accessory: the hypotheses of
+   ble_session_attribution hold and the loop returns the three answers, counters equal *)
+Example c17_session_nonvacuous :
+  let reqs : list breq := [(20, 3%N, 17%N, 10%N, []); (81, 2%N, 200%N, 52%N, map N.of_nat (seq 0 30));
+                           (9, 1%N, 5%N, 300%N, map N.of_nat (seq 0 300))] in
+  (forall (op t i : N) (b : bytes), (N.of_nat (length b) < 65536)%N -> ans_ok (demo_responder (op, t, i, b)))
+  /\ ble_loop toy_seal toy_open toy_seal toy_open demo_responder (7%N, 40%N) (7%N, 40%N) reqs
+     = Ok (map (fun r => ans_outcome (demo_responder (breq_core r))) reqs, (53%N, 99%N), (53%N, 99%N)).
+Proof. cbv zeta. split; [exact demo_responder_ok|vm_compute; reflexivity]. Qed.
+
 Print Assumptions ble_frag_size.
 Print Assumptions ble_reassemble.
 Print Assumptions ble_reassemble_encrypted.
@@ -249,12 +320,17 @@ Print Assumptions ble_reject_bad_tid_first.
 Print Assumptions ble_reject_bad_tid.
 Print Assumptions ble_reject_missing_flag.
 Print Assumptions ble_reject_bad_seal.
+Print Assumptions ble_session_attribution.
+Print Assumptions ble_stale_response_rejected.
+Print Assumptions ble_undefined_status_rejected.
 Print Assumptions coap_request_tids.
 Print Assumptions coap_write_all_or_nothing.
 Print Assumptions coap_write_unknown_aborts.
 Print Assumptions coap_batch_aligned.
+Print Assumptions coap_undefined_status_aborts_batch.
 Print Assumptions coap_decode_total.
 Print Assumptions coap_result_keys.
+Print Assumptions coap_read_attribution.
 Print Assumptions coap_result_last_wins.
 Print Assumptions coap_result_errors.
 Print Assumptions coap_surplus_results_crash.
